@@ -7,6 +7,54 @@ from pathlib import Path
 import pathspec
 
 
+def _has_unclosed_bracket(rule: str) -> bool:
+    """Whether `rule` has a `[` that no `]` closes (git never matches such a pattern)."""
+    i, n = 0, len(rule)
+    while i < n:
+        ch = rule[i]
+        if ch == "\\":
+            i += 2
+            continue
+        if ch == "[":
+            j = i + 1
+            if j < n and rule[j] in "!^":
+                j += 1
+            if j < n and rule[j] == "]":
+                j += 1  # a `]` directly after the opening is a member of the set
+            while j < n and rule[j] != "]":
+                if rule[j] == "\\":
+                    j += 1
+                elif rule[j] == "[" and j + 1 < n and rule[j + 1] == ":":
+                    end = rule.find(":]", j + 2)
+                    if end >= 0:
+                        j = end + 1
+                j += 1
+            if j >= n:
+                return True
+            i = j
+        i += 1
+    return False
+
+
+def _matches_nothing(line: str) -> bool:
+    """
+    Lines that git reads without complaint but that can never match a path: a pattern
+    that is empty once `!` and a directory slash are taken off (`/`, `!`, `!/`), one that
+    ends in an unescaped backslash, and one with an unclosed `[`. (pathspec rejects some
+    of them with an exception and reads the others differently, `/` even as "everything".)
+    """
+    rule = line[1:] if line.startswith("!") else line
+    stripped = rule.rstrip(" ")
+    if stripped != rule and (len(stripped) - len(stripped.rstrip("\\"))) % 2 == 1:
+        stripped += " "  # the last space is escaped and belongs to the pattern
+    rule = stripped
+    if rule in ("", "/"):
+        return True
+    if (len(rule) - len(rule.rstrip("\\"))) % 2 == 1:
+        return True
+    return _has_unclosed_bracket(rule)
+
+
 def _read_ignore_file(path: Path) -> pathspec.PathSpec | None:
     """
     Read an ignore file (gitignore syntax), stripping comments and blanks.
@@ -23,6 +71,7 @@ def _read_ignore_file(path: Path) -> pathspec.PathSpec | None:
     text = text.removeprefix("\ufeff")
     lines = [line.removesuffix("\r") for line in text.split("\n")]
     lines = [line for line in lines if line.strip() and not line.startswith("#")]
+    lines = [line for line in lines if not _matches_nothing(line)]
     if not lines:
         return None
     return pathspec.PathSpec.from_lines("gitignore", lines)
